@@ -18,8 +18,10 @@ CONSTANTS K,          \* max Pool actions per quantum
 
 Traces == JsonDeserialize(IOEnv.TRACE_FILE)
 
-VARIABLES tid, di, l, k, flag
-tvars == <<tid, di, l, k, flag>>
+VARIABLES tid, di, l, k, flag,
+          cf      \* connections on which the driver injected a fault (the only legitimate source of a
+                  \* connection-level HTTP/2 error in these executions: the peers are well behaved)
+tvars == <<tid, di, l, k, flag, cf>>
 
 T    == Traces[tid]
 N    == Len(T.ev)
@@ -38,7 +40,7 @@ TCfg == [originOf |-> [r \in Req |-> IF r <= NReq THEN T.cfg.originOf[r] ELSE ""
 TInit ==
   /\ tid \in 1..Len(Traces) /\ di \in 1..Len(DevChoices)
   /\ l = 1 /\ k = 0
-  /\ flag = [r \in Req |-> "none"]
+  /\ flag = [r \in Req |-> "none"] /\ cf = {}
   /\ cfg = TCfg
   /\ InitRest
 
@@ -109,7 +111,8 @@ TSub(r) ==
       \/ Enter(r) \/ ReqLock(r) \/ ConnectOk(r) \/ Established(r) \/ Activate(r)
       \/ Send(r) \/ (Ev.got /\ RecvHead(r)) \/ (Ev.bend = "full" /\ ReadAll(r)) \/ (Ev.bend = "partial" /\ Abandon(r)) \/ ConnRelease(r)
       \/ CancelDeliver(r) \/ ReleaseStream(r) \/ NativeCancelInShield(r)
-      \/ Enqueue(r) \/ Requeue(r)) /\ UNCHANGED flag
+      \/ Enqueue(r) \/ Requeue(r) \/ MuxLateRefuse(r)
+      \/ (pc[r] \in InExchange /\ cmux[asg[r]] /\ Collateral(r))) /\ UNCHANGED flag
   \/ Faulty(r) /\ flag' = [flag EXCEPT ![r] = "none"]
 
 (***************************************************************************)
@@ -121,12 +124,12 @@ RetPc(ret) == CASE ret = "ok" -> "done" [] ret = "timeout" -> "timedout"
 SubStep ==      \* one more Pool action of the request that ran in this quantum
   /\ l <= N /\ Ev.e = "Q" /\ Ev.r \in TReq /\ k < K
   /\ TSub(Ev.r)
-  /\ k' = k + 1 /\ UNCHANGED <<tid, di, l>>
+  /\ k' = k + 1 /\ UNCHANGED <<tid, di, l, cf>>
 
 EndSub ==       \* at the end of the execution everybody may catch up with invisible steps
   /\ l <= N /\ Ev.e = "End" /\ k < K
   /\ \E r \in TReq : (StartWait(r) \/ Wake(r) \/ Enter(r) \/ Send(r)) /\ UNCHANGED flag
-  /\ k' = k + 1 /\ UNCHANGED <<tid, di, l>>
+  /\ k' = k + 1 /\ UNCHANGED <<tid, di, l, cf>>
 
 (* C07 at the end of an execution whose environment has completed every operation: whoever
    has not returned is legitimately blocked - held by the caller's own script, or waiting
@@ -140,6 +143,7 @@ EndOK ==
 
 EnvStep ==      \* the driver's own stimuli
   /\ l <= N /\ k = 0
+  /\ cf' = IF Ev.e = "Fault" /\ asg[Ev.r] # None THEN cf \cup {asg[Ev.r]} ELSE cf
   /\ \/ /\ Ev.e = "PoolClose" /\ PoolCloseAll /\ UNCHANGED flag
      \/ /\ Ev.e = "Tick" /\ clock' = Ev.t
         /\ UNCHANGED <<cfg, pool, nextc, cvars, evicted, queue, rvars, budget, pclosed, flag>>
@@ -175,8 +179,14 @@ EndStep ==      \* commit: the model projects to what was logged
         \* (threads: the call returns a quantum or two after its last critical section - the lock
         \*  release is a pre-emption point; whoever has not returned by the End is checked there)
         Chk("ret", IF Ev.ret = "" THEN (Threads \/ pc[Ev.r] \notin Terminal) ELSE pc[Ev.r] = RetPc(Ev.ret))
-  /\ l' = l + 1 /\ k' = 0
-  \* HTTP/2 connection-level error is read off the availability the connection reports
+  /\ l' = l + 1 /\ k' = 0 /\ UNCHANGED cf
+  \* HTTP/2 connection-level error is read off the availability the connection reports; with
+  \* well-behaved peers it appears only on a connection that was given an injected fault
+  \* (DEVIATION MuxCancelCorrupts: or after a request to that origin was cancelled, see Pool)
+  /\ Chk("m.connerr", \A c \in Known(Ev.obs) :
+          (cmux[c] /\ cst[c] \in {"active", "idle"} /\ ~Ev.obs.cs[c].av /\ ~cerr[c]) =>
+             \/ c \in cf \/ pclosed
+             \/ Dev("MuxCancelCorrupts") /\ \E x \in Req : exc[x] = "cancel" /\ OriginOf[x] = corg[c])
   /\ cerr' = [c \in Conn |-> IF c \in Known(Ev.obs) /\ cmux[c] /\ cst[c] \in {"active", "idle"}
                                THEN ~Ev.obs.cs[c].av ELSE cerr[c]]
   /\ UNCHANGED <<cfg, pool, nextc, cst, corg, cmux, cexp, cdead, cstr, ccnt, cexch, cwire, evicted, queue, rvars, clock, budget, pclosed, tid, di, flag>>
